@@ -252,6 +252,9 @@ type pmStreamSrc struct {
 	gates     map[int]*gate
 	closed    int
 	slowClose time.Duration
+	// cfg "errorstream": the failing part of the source IS the library's stream.Error(errSrc): once the n items are
+	// out, every Next is answered by that stream's Next (and Close reaches its Close)
+	errStream stream.Stream[int]
 }
 
 func (s *pmStreamSrc) Next(ctx context.Context) (int, error) {
@@ -275,8 +278,12 @@ func (s *pmStreamSrc) Next(ctx context.Context) (int, error) {
 		return pmBase + pos, nil
 	}
 	if s.serr {
+		err := s.errSrc
+		if s.errStream != nil {
+			_, err = s.errStream.Next(ctx)
+		}
 		s.h.add("src-exit", "err", 0)
-		return 0, s.errSrc
+		return 0, err
 	}
 	s.h.add("src-exit", "end", 0)
 	return 0, stream.End
@@ -285,13 +292,16 @@ func (s *pmStreamSrc) Next(ctx context.Context) (int, error) {
 func (s *pmStreamSrc) Close() {
 	s.h.add("srcclose-enter")
 	s.closed++
+	if s.errStream != nil {
+		s.errStream.Close()
+	}
 	if s.slowClose > 0 {
 		time.Sleep(s.slowClose) // a Close that takes a while (cfg "slowclose_ms"): what is reported must not depend on it
 	}
 	s.h.add("srcclose-exit")
 }
 
-// cfg: par, buf, gomaxprocs, n, fgated [k...], sgated [pos...], ferr [k...], serr bool, nctx
+// cfg: par, buf, gomaxprocs, n, fgated [k...], sgated [pos...], ferr [k...], serr bool, errorstream bool, nctx
 // ops: ["next", j] ["close"] ["relf", k] ["rels", pos] ["cancel-parent"] ["cancel-next", j] ["quiesce"]
 func runMapStream(c *Case) *Obs {
 	h := &hlog{}
@@ -326,6 +336,9 @@ func runMapStream(c *Case) *Obs {
 	}
 	src := &pmStreamSrc{h: h, n: n, serr: cfgBool(c, "serr"), errSrc: errSrc, gates: sgates,
 		slowClose: time.Duration(cfgInt(c, "slowclose_ms", 0)) * time.Millisecond}
+	if src.serr && cfgBool(c, "errorstream") {
+		src.errStream = stream.Error[int](errSrc)
+	}
 	f := func(ctx context.Context, x int) (int, error) {
 		k := x - pmBase
 		h.add("f-enter", k)
